@@ -191,12 +191,15 @@ def ffi_cycle_scenarios():
     alt_fixed = {"layout": db + "/Probhat.json", "database": db, "opts": {"fixed_suggestion": True}}
     tails = [[], [{"backspace": False}] * 7, [{"backspace": True}], [{"commit": 0}], [{"finish": 1}, {"backspace": False}],
              [{"finish": 1}, {"update": alt}, {"key": keys["a"], "sel": 0}, {"finish": 1}, {"update": alt_fixed}, {"key": keys["k"], "sel": 0}]]
+    # learning commits: a candidate other than the preselected one, so that the store is saved (twice per cycle: the second commit
+    # undoes the first, every cycle starts from the same store)
+    learn = [{"commit": 1}] + [{"key": keys[ch], "sel": 0} for ch in "ami"] + [{"commit": 0}]
     scs, meta = [], []
     for label, cfg in cfgs:
         for t in texts:
             if not all(ch in keys for ch in t):
                 continue
-            for ti, tail in enumerate(tails):
+            for ti, tail in enumerate(tails + ([learn] if (t == "ami" and label == "phonetic list") else [])):
                 for late in (False, True):
                     if late and ti not in (0, 1):
                         continue
